@@ -108,4 +108,52 @@ theorem C10_post_scope_is_credential_scope_full_false : ¬ S3V.C10.C10_post_scop
   subst hparse; subst hdparse
   exact absurd hdate (by decide)
 
+/-! ### presigned URL: the credential's scope date is ignored (class `sigv4-credential-date-ignored` of `sigv4pre`) -/
+
+def ctxPre : Ctx :=
+  { http2 := false, authority := none, method := b!"GET", path := b!"/bkt/k",
+    qs := [(b!"X-Amz-Algorithm", b!"AWS4-HMAC-SHA256"), (b!"X-Amz-Credential", b!"AK/20130524/r/s3/aws4_request"),
+           (b!"X-Amz-Date", b!"20130525T000000Z"), (b!"X-Amz-Expires", b!"60"),
+           (b!"X-Amz-Signature", b!"0000000000000000000000000000000000000000000000000000000000000001"),
+           (b!"X-Amz-SignedHeaders", b!"host")],
+    hs := [(b!"host", b!"h")], body := [], bodyOnce := true, contentLength := none, decodedContentLength := none }
+
+/-- a MAC that tells the scope days apart: keyed with the day of `X-Amz-Date` the chain ends in `…01`, keyed with the
+    day of the credential in `…02` -/
+def hmacDay : Bytes → Bytes → Bytes := fun key msg =>
+  if msg = b!"20130525" then [1]
+  else if msg = b!"20130524" then [2]
+  else if msg.length ≤ 20 then key                     -- region, service, terminator: pass the day marker on
+  else List.replicate 31 0 ++ [key.getLastD 0]         -- string to sign: 32 bytes ending in the marker
+
+/-- accepted at 2013-05-25T00:00:10Z: the code keys the chain with the day of `X-Amz-Date` -/
+theorem presigned_scope_date_ignored :
+    v4CheckPresignedUrl sha0 hmacDay (some look0) (1369440010 * 1000000000) ctxPre = .accept b!"AK" b!"r" b!"s3" := by
+  decide
+
+/-- …while the specification's signature under the scope of the credential (day 20130524) is another text -/
+theorem presigned_spec_signature_differs :
+    SigV4Spec.signature sha0 hmacDay b!"secret" b!"20130525T000000Z" ⟨b!"20130524", b!"r", b!"s3"⟩
+      (SigV4Spec.presignedRequest ctxPre.method ctxPre.path ctxPre.qs ctxPre.hs [b!"host"]) ≠
+    b!"0000000000000000000000000000000000000000000000000000000000000001" := by decide
+
+theorem C06_presigned_iff_full_false : ¬ S3V.C06.C06_presigned_iff_full := by
+  intro h
+  have hraw : orderedHeaders ctxPre.hs = some ctxPre.hs := by decide
+  obtain ⟨p, secret, date, hc, _, _, _, _, hsig⟩ :=
+    (h sha0 hmacDay look0 _ ctxPre ctxPre.hs b!"AK" b!"r" b!"s3" hraw).mp presigned_scope_date_ignored
+  have hp : parsePresigned ctxPre.qs = some ⟨b!"AWS4-HMAC-SHA256", ⟨b!"AK", b!"20130524", b!"r", b!"s3"⟩,
+      ⟨2013, 5, 25, 0, 0, 0⟩, 60, [b!"host"], b!"0000000000000000000000000000000000000000000000000000000000000001"⟩ := by
+    decide
+  have hparsed := hc.parsed
+  rw [hp] at hparsed
+  injection hparsed with hparsed
+  subst hparsed
+  have hk := hc.key
+  have hk' : look0 b!"AK" = some b!"secret" := by decide
+  rw [show look0 (Credential.accessKey ⟨b!"AK", b!"20130524", b!"r", b!"s3"⟩) = look0 b!"AK" from rfl, hk'] at hk
+  injection hk with hk
+  subst hk
+  exact presigned_spec_signature_differs hsig.symm
+
 end S3V.Findings.C05
